@@ -42,6 +42,7 @@ ALT = {'tal': 't2', 'metal': 'mm', 'i18n': 'ii', 'meta': 'me'}
 STM = [('tal', 'content', 'x'), ('tal', 'replace', 'x'), ('tal', 'condition', 'c'), ('tal', 'define', 'q 1'),
        ('tal', 'omit-tag', ''), ('tal', 'omit-tag', 'c'), ('tal', 'attributes', 'k x'), ('tal', 'repeat', 'i (1,2)'),
        ('i18n', 'translate', ''), ('i18n', 'domain', 'd'), ('meta', 'interpolation', 'true'),
+       ('meta', 'interpolation', 'false'), ('meta', 'interpolation', 'off'), ('meta', 'interpolation', 'on'),
        ('tal', 'on-error', 'string:e'), ('tal', 'switch', 'x'), ('i18n', 'attributes', 'title'),
        ('tal', 'comment', 'blah'), ('metal', 'define-macro', 'M'), ('metal', 'define-slot', 'S'),
        ('tal', 'content', 'structure sx'), ('i18n', 'context', 'cx'),
@@ -49,7 +50,10 @@ STM = [('tal', 'content', 'x'), ('tal', 'replace', 'x'), ('tal', 'condition', 'c
        ('tal', 'omit-tag', 'not c'), ('tal', 'condition', 'c &lt; 3'), ('tal', 'content', "'fish &amp; chips'"),
        ('tal', 'replace', "structure '&lt;b&gt;y&lt;/b&gt;'"), ('tal', 'define', "q 'a&quot;b'")]
 FOREIGN = [('class', 'k'), ('data-foo', '2'), ('data-x-y', '7'), ('f:a', '3'), ('title', 'T'), ('xml:lang', 'en'),
-           ('aria-label', 'l'), ('DATA-UP', '1'), ('b', '8')]
+           ('aria-label', 'l'), ('DATA-UP', '1'), ('b', '8'),
+           # ordinary data attributes whose second word is a prefix known at that point but not a template language
+           ('data-xml-lang', 'de'), ('data-xmlns-x', 'u'), ('data-f-icon', 'i'), ('data-tal', 'w'), ('data-talx-content', 'v'),
+           ('data-data-tal-content', 'dd')]
 
 
 class El:
